@@ -725,16 +725,103 @@ def pipelineAnalyzer {α : Type} [Arith α] (m : Model α) (tol : α) (maxSteps 
   (Compile.normalizedForBounds m.constraints).map fun cs =>
     (Analyzer.analyze m.domain cs tol maxSteps).enforceable m.domain
 
+/-- the up-front collapse check of `Linearizer::linearize` (fix e35561f) went through on the scratch context. -/
+def scratchOK {α : Type} [Arith α] (m : Model α) (tol : α) (maxSteps : Nat) : Prop :=
+  ∃ r, collapseCheckAll m (Compile.scratchState m tol maxSteps) = .ok r
+
 theorem compile_ok_iff {α : Type} [Arith α] (m : Model α) (tol : α) (maxSteps : Nat) (lm : LinModel α) :
     Compile.linearize m tol maxSteps = .ok lm ↔
-      ∃ an, pipelineAnalyzer m tol maxSteps = some an ∧
+      scratchOK m tol maxSteps ∧ ∃ an, pipelineAnalyzer m tol maxSteps = some an ∧
         linearizeWith m (Compile.toLinBounds an.variableBounds) (an.applyToDomain m.domain) = .ok lm := by
-  unfold Compile.linearize pipelineAnalyzer
-  cases hcs : Compile.normalizedForBounds m.constraints with
-  | none => simp
-  | some cs =>
-    simp only [Option.map_some, Option.some.injEq, exists_eq_left']
-    rfl
+  unfold Compile.linearize pipelineAnalyzer scratchOK
+  cases hchk : collapseCheckAll m (Compile.scratchState m tol maxSteps) with
+  | error e => simp
+  | ok r =>
+    have hex : ∃ r', (Except.ok r : Except LinErr (Unit × St α)) = .ok r' := ⟨r, rfl⟩
+    cases hcs : Compile.normalizedForBounds m.constraints with
+    | none => simp
+    | some cs =>
+      simp only [Option.map_some, Option.some.injEq, exists_eq_left', hex, true_and]
+      rfl
+
+/-- the piecewise-linear fragment has no logic node: the collapse check does nothing. -/
+theorem collapseCheck_frag {ext : Bool} : ∀ (e : Exp (Ext K)), frag ext e = true →
+    ∀ s : St (Ext K), collapseCheck e s = .ok ((), s) := by
+  have hlist : ∀ (es : List (Exp (Ext K))), (∀ e ∈ es, ∀ s : St (Ext K), collapseCheck e s = .ok ((), s)) →
+      ∀ s : St (Ext K), collapseCheckList es s = .ok ((), s) := by
+    intro es
+    induction es with
+    | nil => intro _ s; rw [collapseCheckList]; rfl
+    | cons x xs ih =>
+      intro h s
+      rw [collapseCheckList]
+      simp only [bind_ok]
+      exact ⟨⟨⟩, s, h x (by simp) s, ih (fun e he => h e (by simp [he])) s⟩
+  intro e
+  induction e using Exp.indL with
+  | num v => intro _ s; rw [collapseCheck]; rfl
+  | var x => intro _ s; rw [collapseCheck]; rfl
+  | abs e ih => intro h s; rw [collapseCheck]; exact ih (by simpa [frag] using h) s
+  | min es ih =>
+    intro h s
+    simp only [frag, Bool.and_eq_true, fragList_iff] at h
+    rw [collapseCheck]; exact hlist es (fun e he => ih e he (h.2 e he)) s
+  | max es ih =>
+    intro h s
+    simp only [frag, Bool.and_eq_true, fragList_iff] at h
+    rw [collapseCheck]; exact hlist es (fun e he => ih e he (h.2 e he)) s
+  | bin op a b iha ihb =>
+    intro h s
+    simp only [frag, Bool.and_eq_true] at h
+    cases op <;> simp [isArithOp] at h <;>
+      (rw [collapseCheck]
+       · simp only [bind_ok]
+         exact ⟨⟨⟩, s, iha h.1 s, ⟨⟩, s, ihb h.2 s, rfl⟩
+       all_goals (intro hh; cases hh))
+  | un op e ih =>
+    intro h s
+    cases op with
+    | neg => rw [collapseCheck]; exact ih (by simpa [frag] using h) s
+    | not => simp [frag] at h
+  | _ => intro h; simp [frag] at h
+
+theorem collapseCheckConstraints_frag {ext : Bool} : ∀ (cs : List (Constraint (Ext K))),
+    (∀ c ∈ cs, frag ext c.lhs = true ∧ (c.isAssert = false → frag ext c.rhs = true)) →
+    ∀ s : St (Ext K), collapseCheckConstraints cs s = .ok ((), s)
+  | [], _, s => by rw [collapseCheckConstraints]; rfl
+  | c :: cs, h, s => by
+    have ih := collapseCheckConstraints_frag cs (fun x hx => h x (by simp [hx])) s
+    have hl := collapseCheck_frag _ (h c (by simp)).1 s
+    rw [collapseCheckConstraints]
+    cases hA : c.isAssert
+    · have hr := collapseCheck_frag _ ((h c (by simp)).2 hA) s
+      simp only [Bool.not_false, if_true, bind_ok]
+      exact ⟨⟨⟩, s, hl, ⟨⟩, s, hr, ih⟩
+    · simp only [Bool.not_true, Bool.false_eq_true, if_false, bind_ok]
+      exact ⟨⟨⟩, s, hl, ih⟩
+
+/-- a model without logic nodes passes the up-front collapse check (it has nothing to do). -/
+theorem scratchOK_frag {ext : Bool} {m : Model (Ext K)} (tol : Ext K) (maxSteps : Nat)
+    (hobj : frag ext m.objective = true)
+    (hcons : ∀ c ∈ m.constraints, frag ext c.lhs = true ∧ (c.isAssert = false → frag ext c.rhs = true)) :
+    scratchOK m tol maxSteps := by
+  refine ⟨((), Compile.scratchState m tol maxSteps), ?_⟩
+  unfold collapseCheckAll
+  simp only [bind_ok]
+  exact ⟨⟨⟩, _, collapseCheck_frag _ hobj _, collapseCheckConstraints_frag _ hcons _⟩
+
+/-- a decidable form of "no logic node anywhere in the model". -/
+def fragCheck (m : Model (Ext K)) : Bool :=
+  frag true m.objective && m.constraints.all (fun c => frag true c.lhs && frag true c.rhs)
+
+theorem scratchOK_of_fragCheck {m : Model (Ext K)} (tol : Ext K) (maxSteps : Nat) (h : fragCheck m = true) :
+    scratchOK m tol maxSteps := by
+  simp only [fragCheck, Bool.and_eq_true, List.all_eq_true] at h
+  exact scratchOK_frag (ext := true) tol maxSteps h.1 (fun c hc => ⟨(h.2 c hc).1, fun _ => (h.2 c hc).2⟩)
+
+theorem scratchOK_fragModel {m : Model (Ext K)} {d : List (DomVar (Ext K))} (hm : FragModel true m d)
+    (tol : Ext K) (maxSteps : Nat) : scratchOK m tol maxSteps :=
+  scratchOK_frag tol maxSteps hm.obj.1 (fun c hc => ⟨(hm.cons c hc).lhs.1, fun _ => (hm.cons c hc).rhs.1⟩)
 
 theorem fragModel_applyToDomain {m : Model (Ext K)} (an : Analyzer (Ext K)) (hm : FragModel true m m.domain) :
     FragModel true m (an.applyToDomain m.domain) := by
@@ -773,7 +860,7 @@ theorem compile_feasible_iff {m : Model (Ext K)} {t : K} (ht : 0 ≤ t) {maxStep
     (ht1 : t < 1 ∨ NoIntVars m.domain) (ρ : String → K) :
     srcFeasible m ρ = true ↔
       ∃ ρ' : String → K, (∀ x, inScope m.domain x → ρ' x = ρ x) ∧ linFeasible lm ρ' = true := by
-  obtain ⟨an, han, hlin⟩ := (compile_ok_iff m _ maxSteps lm).mp h
+  obtain ⟨_, an, han, hlin⟩ := (compile_ok_iff m _ maxSteps lm).mp h
   obtain ⟨hdom, hbox⟩ := pipeline_hyps ht maxSteps hm hok han ht1
   rw [pl_feasible_iff (fragModel_applyToDomain an hm) hdom hbox hlin ρ]
   constructor
@@ -791,7 +878,7 @@ theorem compile_objective {m : Model (Ext K)} {t : K} (ht : 0 ≤ t) {maxSteps :
         ∃ w, linObjective lm ρ' = some w ∧ rel (objReq m) w v) ∧
     (∃ ρ' : String → K, (∀ x, inScope m.domain x → ρ' x = ρ x) ∧ linFeasible lm ρ' = true ∧
         linObjective lm ρ' = some v) := by
-  obtain ⟨an, han, hlin⟩ := (compile_ok_iff m _ maxSteps lm).mp h
+  obtain ⟨_, an, han, hlin⟩ := (compile_ok_iff m _ maxSteps lm).mp h
   obtain ⟨hdom, hbox⟩ := pipeline_hyps ht maxSteps hm hok han ht1
   obtain ⟨h1, ρ', hag, hf, ho⟩ := pl_objective (fragModel_applyToDomain an hm) hdom hbox hlin ρ hs v hv
   refine ⟨fun ρ'' hag'' hf'' => h1 ρ'' (fun x hx => hag'' x ((inScope_applyToDomain an m.domain x).mp hx)) hf'',
